@@ -3,12 +3,12 @@ Line-protocol driver for the driver-process model (C14): `drv_c14 trace`.
 
 One case per input line, `key=value` tokens separated by blanks:
 
-  mode=<E|S|c|link> out=<path|-> in=<arg>,<arg>,… files=<path>:<tag>,… faults=<prog>:<k>:<exit|sig>:<n>:<w|n>,… mkfail=<k|-> [il=<0|1>… other=<index>]
+  mode=<E|S|c|link> out=<path|-> in=<arg>,<arg>,… files=<path>:<tag>,… faults=<prog>:<k>:<exit|sig>:<n>:<w|n|r>,… mkfail=<k|-> [il=<0|1>… other=<index>]
 
 * `in`     the input arguments as written on the command line (kind by `get_file_type` / the `-l` test)
 * `files`  the initial file system: path and origin tag of every existing file
-* `faults` outcome of the k-th (0-based) invocation of cc1/as/ld: exit code n or signal n; `w`: a failing
-           as/ld leaves junk in its output
+* `faults` outcome of the k-th (0-based) invocation of cc1/as/ld: exit code n or signal n; a failing as/ld
+           leaves junk in its output (`w`), removes it (`r`) or does not touch it (`n`)
 * `mkfail` index of the mkstemp call that fails (`-`: none)
 
 Output: one line `status=<n> trace=<event>|<event>|… files=<path>=<cls>[<tag>,…];…` with the temporaries
@@ -73,7 +73,7 @@ def parseFault (s : String) : Option (Prog × Nat × Outcome) :=
       | "exit" => some (Status.exit n)
       | "sig" => if n = 0 then none else some (Status.signal (n - 1))
       | _ => none
-    some (p, k, ⟨st, w = "w"⟩)
+    some (p, k, ⟨st, if w = "w" then .junk else if w = "r" then .removed else .untouched⟩)
   | _ => none
 
 def parseFile (s : String) : Option (String × Content) :=
